@@ -24,19 +24,21 @@ let sanitize (u : string) : string = unitSanitizer u
 let unit_ok (u : string) : bool = let o = ostr u in o = "" || o = "none" || isSIUnit u
 
 exception Refuse of ostring
+let mode_ : ostring ref = ref "C03"
 
 type slot = { kind : char; parent : int; name : ostring; mutable bound : bool; mutable oid : int;
               mutable lost : bool; (* re-identified, noticed at the last liveness refresh: dead for the implementation driver *)
               mutable linked : bool (* some link may have pointed to it at some time *) }
-type world = { mutable st : db; beh : behaviour; mutable tbl : slot array; mutable n : int;
+(* [ss]: the session of coq/Store/DbSession.v (the file, the open mode, the deleted-but-open objects); [st] is its file *)
+type world = { mutable ss : sess; beh : behaviour; mutable tbl : slot array; mutable n : int;
                ord_of_oid : (int, int) OHashtbl.t; mutable last_dump : ostring }
 
-let new_world beh = { st = empty_db; beh = beh; tbl = [||]; n = 0; ord_of_oid = OHashtbl.create 64; last_dump = "" }
-let reset_world w = w.st <- empty_db; w.tbl <- [||]; w.n <- 0; OHashtbl.reset w.ord_of_oid
+let new_world beh = { ss = init_sess; beh = beh; tbl = [||]; n = 0; ord_of_oid = OHashtbl.create 64; last_dump = "" }
+let reset_world w = w.ss <- init_sess; w.tbl <- [||]; w.n <- 0; OHashtbl.reset w.ord_of_oid
 
 let slot_of w k = if k < 0 || k >= w.n then None else Some w.tbl.(k)
 let is_bound w k = match slot_of w k with Some s -> s.bound | None -> false
-let is_alive_oid w o = alive w.st (nat_of_int o)
+let is_alive_oid w o = alive (w.ss.s_db) (nat_of_int o)
 let slot_alive w s = (not s.lost) && is_alive_oid w s.oid
 let is_live w k = match slot_of w k with Some s -> s.bound && slot_alive w s | None -> false
 
@@ -122,7 +124,7 @@ let checked_index pkc kc = match pkc, kc with
 (* the implementation driver recognises an entity by its id: a re-identified entity is unknown to it *)
 let ord_of w (o : nat) : ostring =
   match OHashtbl.find_opt w.ord_of_oid (int_of_nat o) with
-  | Some k -> (match find_ent w.st o with
+  | Some k -> (match find_ent (w.ss.s_db) o with
       | Some e when int_of_nat (e_idx e) <> int_of_nat (e_oid e) -> "?"
       | _ -> ostring_of_int k)
   | None -> "?"
@@ -150,9 +152,12 @@ let show_field w f = match f with
   | FZs (l, v) -> ostr l ^ "=" ^ brack (OLst.map string_of_z v)
   | FDt (l, v) -> ostr l ^ "=" ^ string_of_dtype v
   | FCols (l, v) -> ostr l ^ "=" ^ brack (OLst.map (fun c -> enc c.c_name ^ ":" ^ string_of_dtype c.c_dtype ^ ":" ^ enc c.c_unit) v)
+  | FDims (l, v) -> ostr l ^ "=" ^ brack (OLst.map (fun d -> match d with
+      | DimSet -> "set" | DimRange -> "range" | DimSampled -> "sampled" | DimAlias -> "alias"
+      | DimFrame f -> "frame:" ^ ord_opt w f) v)
 
 let dump w : ostring =
-  let (root, lines) = observe w.st in
+  let (root, lines) = observe (w.ss.s_db) in
   let known = ref [] and unknown = ref [] in
   OLst.iter (fun ln ->
       let key = if ln.ln_id_ok then OHashtbl.find_opt w.ord_of_oid (int_of_nat ln.ln_oid) else None in
@@ -179,9 +184,10 @@ let fnv (s : ostring) : int =
   !h
 
 (* ---- running an op ---- *)
-let run_op w (o : op) : value res =
-  let (s', r) = step ids sanitize unit_ok w.beh w.st o in
-  w.st <- s'; r
+let run_sop w (x : sop) : value res =
+  let (s', r) = sstep ids sanitize unit_ok w.beh w.ss x in
+  w.ss <- s'; r
+let run_op w (o : op) : value res = run_sop w (SOp o)
 
 let show_err r = match r with Err e -> "ERR " ^ ostr e | UB u -> "UB " ^ ostr u | Ok _ -> assert false
 let show_value w v = match v with
@@ -210,7 +216,7 @@ let chk_line w (ptok : ostring) (kc : char) : ostring =
     let r = run_op w (OGetIdx (p, k, nat_of_int i)) in
     match r with
     | Ok (VEnt (Some oid)) ->
-      (match find_ent w.st oid with
+      (match find_ent (w.ss.s_db) oid with
        | Some e ->
          let id = ids (e_idx e) and nm = e_name e in
          (* C++ geti_full: id(), name(), has(handle) — a throw there makes the whole entry "!" *)
@@ -253,7 +259,7 @@ let chk_spec w (ptok : ostring) (kc : char) : ostring =
   let (p, _) = parent_of w ptok kc in
   let k = kind_of_char kc in
   let named = kc <> 'X' in
-  let l = OLst.map (fun e -> ord_of w (e_oid e)) (children w.st p k) in
+  let l = OLst.map (fun e -> ord_of w (e_oid e)) (children (w.ss.s_db) p k) in
   let ones = brack (OLst.map (fun _ -> "1") l) in
   let ll = brack l in
   let pk = if ptok = "F" then -1 else oint_of_string ptok in
@@ -265,7 +271,7 @@ let chk_spec w (ptok : ostring) (kc : char) : ostring =
       let id = ostr (ids (nat_of_int s.oid)) in
       (* has by the stale handle: 0 — not asked ("!") when the drivers refuse the handle as possibly zombie-held *)
       let hh = if s.linked then "!" else "0" in
-      match OLst.find_opt (fun e -> ostr (e_name e) = id) (children w.st p k) with
+      match OLst.find_opt (fun e -> ostr (e_name e) = id) (children (w.ss.s_db) p k) with
       | Some x -> gone := (ostring_of_int j ^ ":1:" ^ ord_of w (e_oid x) ^ ":" ^ hh) :: !gone
       | None -> gone := (ostring_of_int j ^ ":0:-:" ^ hh) :: !gone
     end
@@ -292,7 +298,7 @@ let lchk_line w hk (sl : lslot) : ostring =
   for i = 0 to n - 1 do
     match run_op w (OLGetIdx (h, sl, nat_of_int i)) with
     | Ok (VEnt (Some oid)) ->
-      (match find_ent w.st oid with
+      (match find_ent (w.ss.s_db) oid with
        | Some e ->
          let id = ids (e_idx e) and nm = e_name e in
          (match run_op w (OLHas (h, sl, HEnt oid)) with
@@ -314,8 +320,8 @@ let lchk_line w hk (sl : lslot) : ostring =
 
 let lchk_spec w hk (sl : lslot) : ostring =
   let h = holder w hk sl in
-  let oids = (match find_ent w.st h with Some e -> get_l sl e.e_links | None -> []) in
-  let ms = OLst.filter_map (fun o -> find_ent w.st o) oids in
+  let oids = (match find_ent (w.ss.s_db) h with Some e -> get_l sl e.e_links | None -> []) in
+  let ms = OLst.filter_map (fun o -> find_ent (w.ss.s_db) o) oids in
   let l = OLst.map (ord_of w) oids in
   let ones = brack (OLst.map (fun _ -> "1") l) in
   let ll = brack l in
@@ -437,8 +443,118 @@ let do_line w toks : ostring =
   | "settext" :: o :: rest -> let oid = recv w (num o) "T" in
     let x = (match rest with ["-"] -> None | n :: ds -> Some (OLst.map cstr (ntake ds (num n))) | _ -> failwith "bad settext") in
     show w (run_op w (OSetTagExt (nat_of_int oid, x)))
+  | ["dim"; o; k] ->
+    let oid = recv w (num o) "A" in
+    let d = (match k with "set" -> DimSet | "range" -> DimRange | "sampled" -> DimSampled | "alias" -> DimAlias | _ -> failwith "bad dimension kind") in
+    show w (run_op w (ODimAdd (nat_of_int oid, d, HNone)))
+  | ["dim"; o; "frame"; r] ->
+    let oid = recv w (num o) "A" in
+    let a = arg w (dec_ref r) 'D' in
+    show w (run_op w (ODimAdd (nat_of_int oid, DimFrame None, a)))
+  | ["deldims"; o] -> let oid = recv w (num o) "A" in show w (run_op w (ODimClear (nat_of_int oid)))
+  | ["frows"; o; n] -> let oid = recv w (num o) "D" in show w (run_op w (OSetExtent (nat_of_int oid, [z_of_string n])))
+  (* writes of fields the model does not carry: well-formed by construction of the generators *)
+  | [("setlabel" | "setunit" | "setorigin"); o; _] -> let oid = recv w (num o) "A" in show w (run_op w (OTouch (nat_of_int oid, [KArray])))
+  | "setpoly" :: o :: _ -> let oid = recv w (num o) "A" in show w (run_op w (OTouch (nat_of_int oid, [KArray])))
+  | ["wdata"; o; _] -> let oid = recv w (num o) "A" in show w (run_op w (OTouch (nat_of_int oid, [KArray])))
+  | ["dimset"; o; _; _] -> let oid = recv w (num o) "A" in show w (run_op w (OTouch (nat_of_int oid, [KArray])))
+  | ["wrow"; o; _; _] -> let oid = recv w (num o) "D" in show w (run_op w (OTouch (nat_of_int oid, [KFrame])))
+  | [("punit" | "puncert"); o; _] -> let oid = recv w (num o) "P" in show w (run_op w (OTouch (nat_of_int oid, [KProperty])))
+  | ["setrepo"; o; _] -> let oid = recv w (num o) "S" in show w (run_op w (OTouch (nat_of_int oid, [KSection])))
+  | ["forcecreated"; "F"; _] -> (match w.ss.s_mode with Some MRW -> "OK -" | _ -> "ERR nix::hdf5::H5Error")
+  | ["forcecreated"; o; _] -> let oid = recv w (num o) "BSRADTMGPX" in
+    show w (run_op w (OTouch (nat_of_int oid, [KBlock; KSection; KSource; KArray; KFrame; KTag; KMTag; KGroup; KProperty; KFeature])))
+  | ["flush"] -> show w (run_sop w SFlush)
   | c :: _ -> failwith ("bad command " ^ c)
   | [] -> failwith "empty line"
+
+
+(* ---- the delete report (C04), computed on the model's own dump text exactly as harness/hist_common.hpp does ---- *)
+let split_fields (line : ostring) : ostring list =
+  let out = ref [] and cur = OBuffer.create 32 and depth = ref 0 in
+  OStr.iter (fun ch ->
+      if ch = '[' then incr depth;
+      if ch = ']' then decr depth;
+      if ch = ' ' && !depth = 0 then begin
+        if OBuffer.length cur > 0 then out := OBuffer.contents cur :: !out;
+        OBuffer.clear cur end
+      else OBuffer.add_char cur ch) line;
+  if OBuffer.length cur > 0 then out := OBuffer.contents cur :: !out;
+  OLst.rev !out
+let split_bar (d : ostring) : ostring list =
+  let n = OStr.length d in
+  let rec go i acc =
+    let rec find j = if j + 3 > n then -1 else if OStr.sub d j 3 = " | " then j else find (j + 1) in
+    let j = find i in
+    if j < 0 then OLst.rev (OStr.sub d i (n - i) :: acc) else go (j + 3) (OStr.sub d i (j - i) :: acc) in
+  go 0 []
+let is_num (s : ostring) = s <> "" && (let ok = ref true in OStr.iter (fun c -> if c < '0' || c > '9' then ok := false) s; !ok)
+let ref_class (k : char) (label : ostring) : int =
+  if OLst.mem label ["B"; "S"; "P"; "A"; "D"; "T"; "M"; "G"; "R"; "X"; "refs"; "src"; "ga"; "gd"; "gt"; "gm"] then 1
+  else if label = "meta" || label = "link" || label = "data" then 2
+  else if k = 'M' && (label = "pos" || label = "ext") then 2
+  else if label = "dims" then 3 else 0
+let list_items (v : ostring) : ostring list =
+  let n = OStr.length v in
+  if n < 2 || v.[0] <> '[' then [] else OLst.filter (fun x -> x <> "") (OStr.split_on_char ' ' (OStr.sub v 1 (n - 2)))
+let label_value (f : ostring) : (ostring * ostring) option =
+  match OStr.index_opt f '=' with
+  | Some i -> Some (OStr.sub f 0 i, OStr.sub f (i + 1) (OStr.length f - i - 1))
+  | None -> None
+let starts_with (p : ostring) (s : ostring) = OStr.length s >= OStr.length p && OStr.sub s 0 (OStr.length p) = p
+let dangling_in (d : ostring) (dead : int list) : ostring list =
+  let out = ref [] in
+  OLst.iter (fun ln ->
+      match split_fields ln with
+      | [] -> ()
+      | h :: fs ->
+        let k = h.[0] in
+        OLst.iter (fun f -> match label_value f with
+            | None -> ()
+            | Some (label, v) ->
+              let items = (match ref_class k label with
+                  | 1 -> list_items v
+                  | 2 -> [v]
+                  | 3 -> OLst.filter_map (fun x -> if starts_with "frame:" x then Some (sub_from x 6) else None) (list_items v)
+                  | _ -> []) in
+              OLst.iter (fun x -> if is_num x && OLst.mem (oint_of_string x) dead then out := (h ^ "." ^ label ^ ":" ^ x) :: !out) items) fs)
+    (split_bar d);
+  OLst.rev !out
+let scrub_dump (d : ostring) (dead : int list) : ostring =
+  let gone x = is_num x && OLst.mem (oint_of_string x) dead in
+  let lines = OLst.filter_map (fun ln ->
+      match split_fields ln with
+      | [] -> None
+      | h :: fs ->
+        let k = h.[0] in
+        let o = sub_from h 1 in
+        if (k <> 'F' || OStr.length h > 1) && gone o then None else
+          Some (OStr.concat " " (h :: OLst.map (fun f -> match label_value f with
+              | None -> f
+              | Some (label, v) ->
+                let v' = (match ref_class k label with
+                    | 1 -> brack (OLst.filter (fun x -> not (gone x)) (list_items v))
+                    | 2 -> if gone v then "-" else v
+                    | 3 -> brack (OLst.map (fun x -> if starts_with "frame:" x && gone (sub_from x 6) then "frame:-" else x) (list_items v))
+                    | _ -> v) in
+                label ^ "=" ^ v') fs))) (split_bar d) in
+  OStr.concat " | " lines
+
+(* the entities the implementation driver regards as dead: deleted, or no longer known under their id *)
+let dead_slots w : int list =
+  let out = ref [] in
+  for j = w.n - 1 downto 0 do
+    let s = w.tbl.(j) in
+    if s.bound && not (slot_alive w s) then out := j :: !out
+  done;
+  !out
+
+let delete_report w (before : ostring) (after : ostring) (was_alive : bool array) : ostring =
+  let all_dead = dead_slots w in
+  let now_dead = OLst.filter (fun j -> j < Array.length was_alive && was_alive.(j)) all_dead in
+  let zv = OLst.filter (fun j -> handle_valid w.beh w.ss.s_db w.ss.s_ghosts (HEnt (nat_of_int w.tbl.(j).oid))) all_dead in
+  " dead=" ^ brack (OLst.map ostring_of_int now_dead) ^ " dang=" ^ brack (dangling_in after all_dead) ^
+  " zv=" ^ brack (OLst.map ostring_of_int zv) ^ " frame=" ^ bool01 (scrub_dump before now_dead = after)
 
 let tail_of before now = OPrintf.sprintf " t=%d h=%08x" (if before = now then 0 else 1) (fnv now)
 
@@ -446,21 +562,29 @@ let tail_of before now = OPrintf.sprintf " t=%d h=%08x" (if before = now then 0 
 let answer w toks : ostring =
   match toks with
   | ["new"] -> reset_world w; w.last_dump <- dump w; "OK -" ^ tail_of w.last_dump w.last_dump
-  | ["reopen"] ->
-    ignore (run_op w OReopen);
+  | "reopen" :: rest ->
+    let kind = (match rest with [] -> "rw" | k :: _ -> k) in
+    ignore (run_sop w SClose);
+    if kind = "other" || kind = "otherw" then begin
+      (* another process: a fresh session on the same file, which it closes again *)
+      ignore (run_sop w (SOpen (if kind = "other" then MRO else MRW)));
+      ignore (run_sop w SClose) end;
+    ignore (run_sop w (SOpen (if kind = "ro" then MRO else MRW)));
     for j = 0 to w.n - 1 do
       let s = w.tbl.(j) in
       (* the implementation driver finds its entities again by id: dead or re-identified ones become none handles *)
       let gone = not (is_alive_oid w s.oid) ||
-                 (match find_ent w.st (nat_of_int s.oid) with Some e -> int_of_nat (e_idx e) <> s.oid | None -> true) in
+                 (match find_ent (w.ss.s_db) (nat_of_int s.oid) with Some e -> int_of_nat (e_idx e) <> s.oid | None -> true) in
       if s.bound && gone then s.bound <- false
     done;
     let before = w.last_dump in
     w.last_dump <- dump w;
-    "OK -" ^ tail_of before w.last_dump
+    (* close_reopen_observe: the tree after the reopen is the tree before the close *)
+    "OK - same=1 diff=- n=" ^ ostring_of_int (OLst.length (w.ss.s_db).ents) ^ tail_of before w.last_dump
   | ["observe"] -> "OK " ^ dump w
   | ["uuid"; s] -> "OK " ^ bool01 (looksLikeUUID (cstr (dec_str s)))
   | _ ->
+    let was_alive = Array.init w.n (fun j -> let s = w.tbl.(j) in s.bound && slot_alive w s) in
     let head = (try do_line w toks with Refuse what -> "ERR " ^ what | ModelUB u -> "UB " ^ u) in
     (* bookkeeping of possible link targets, as in harness/hist_common.hpp *)
     let is_ok = OStr.length head >= 2 && OStr.sub head 0 2 = "OK" in
@@ -477,6 +601,8 @@ let answer w toks : ostring =
       | ("ladds" :: _ :: _ :: t :: _) -> mark_str t
       | (("setmetas" | "setlinks" | "setposs" | "setexts" | "setdatas") :: _ :: t :: _) -> mark_str t
       | ("lset" :: _ :: _ :: n :: refs) -> OLst.iter mark_ref (ntake refs (oint_of_string n))
+      | ("dim" :: _ :: "frame" :: r :: _) -> mark_ref r
+      | ("dim" :: o :: "alias" :: _) -> mark_ref o
       | ("mk" :: _ :: "M" :: _ :: _ :: r :: _) -> mark_ref r
       | ("mk" :: _ :: "X" :: _ :: _ :: "h" :: r :: _) -> mark_ref r
       | ("mk" :: _ :: "X" :: _ :: _ :: "s" :: t :: _) -> mark_str t
@@ -486,13 +612,16 @@ let answer w toks : ostring =
      | ("del" | "delh") :: _ when head = "OK 1" ->
        for j = 0 to w.n - 1 do
          let s = w.tbl.(j) in
-         if s.bound then (match find_ent w.st (nat_of_int s.oid) with
+         if s.bound then (match find_ent (w.ss.s_db) (nat_of_int s.oid) with
              | Some e when int_of_nat (e_idx e) <> s.oid -> s.lost <- true
              | _ -> ())
        done
      | _ -> ());
     let before = w.last_dump in
     w.last_dump <- dump w;
+    let head = (match toks with
+        | ("del" | "delh") :: _ when head = "OK 1" && !mode_ = "C04" -> head ^ delete_report w before w.last_dump was_alive
+        | _ -> head) in
     head ^ tail_of before w.last_dump
 
 let cur = new_world current_behaviour
@@ -510,13 +639,16 @@ let poisoned = ref false
 let is_ub a = OStr.length a >= 2 && OStr.sub a 0 2 = "UB"
 
 let run_hist (mode : ostring) =
+  mode_ := mode;
   let handle toks =
     if toks = ["new"] then poisoned := false;
     if !poisoned then "UB the process died earlier in this case ## ANY" else
     let a = (try answer cur toks with Failure m -> "ERR driver::script " ^ m) in
     let b = (try answer rep toks with Failure m -> "ERR driver::script " ^ m) in
     let spec = (match toks with
-        | ("new" | "reopen" | "observe" | "uuid") :: _ -> "ANY"
+        | "reopen" :: _ -> if mode = "C02" then b else "ANY"
+        | ("del" | "delh") :: _ when mode = "C04" -> if is_err b then "ANY" else b
+        | ("new" | "observe" | "uuid") :: _ -> "ANY"
         | ["chk"; ptok; kt] ->
           if mode = "C03" then (try "OK " ^ chk_spec rep ptok kt.[0] with Refuse what -> "ERR " ^ what | Failure _ -> "ANY") else "ANY"
         | ["lchk"; h; sl] ->
